@@ -1,18 +1,100 @@
-/* C02-local contracts and spec constants (owner: schnorr units).
+/* C02-local contracts and spec constants (owner: schnorr units; also used by C17).
  *
- * 1. C02_ZERO_MASK_SPEC: the constant BIP-340 prescribes for "aux_rand absent" signing in this
- *    library, TaggedHash("BIP0340/aux", 0^32).  NOT an assumption: C02.midstates proves that the
- *    real SHA-256 code produces exactly these bytes for that input, and C02.nonce proves that
- *    nonce_function_bip340_impl XORs the key with exactly these bytes when data == NULL.
- * 2. Ghost-logging contract for secp256k1_schnorrsig_challenge (PROVED against the real body by
- *    C02.challenge at the hash-stream level; here only "which arguments did the caller pass").
- * 3. ASSUMED oracles not in assumed.h: secp256k1_ge_set_xo_var (lift_x verdict), used by xonly_pubkey_load
- *    through secp256k1_pubkey_load?  (no: pubkey_load only decodes) - see each unit. */
+ * 1. C02_ZERO_MASK_SPEC: TaggedHash("BIP0340/aux", 0^32), the mask BIP-340 signing uses when aux_rand
+ *    is absent.  NOT an assumption: C02.midstates proves that the real SHA-256 code produces exactly
+ *    these bytes for that input, and C02.nonce proves that nonce_function_bip340_impl XORs the key
+ *    with exactly these bytes when data == NULL.
+ * 2. HASHLOG2 (define C02_HASHLOG2 before the include, INSTEAD of including hash_log.h): the stream
+ *    contracts of contracts/hash_log.h, verbatim, plus a SECOND finalize watch (g_we2 -> g_w2_fin,
+ *    g_w2_end, g_w2_dig).  Needed wherever the digest of one hash computation is fed into a later
+ *    one (masked key = key ^ H_aux(data); generic tagged init), because the single watch of
+ *    hash_log.h records the digest of the watched epoch only.  The extra clauses constrain ghost
+ *    variables only; the non-ghost part (requires / assigns *hash,out32 / hash->bytes) is identical
+ *    to hash_log.h, so the C05 proof of those contracts carries over unchanged.
+ * 3. ghost-logging contract for secp256k1_schnorrsig_challenge (define C02_CHALLENGE_CONTRACT):
+ *    frame + scalar_ok(e) + log of the arguments.  The function itself is PROVED at the
+ *    hash-stream level by C02.challenge. */
 #ifndef VERIF_ASSUMED_C02_H
 #define VERIF_ASSUMED_C02_H
-#include "pre.h"
+#include "assumed.h"   /* define LOG_* before including this file */
 static const unsigned char C02_ZERO_MASK_SPEC[32] = {
     0x54, 0xf1, 0x69, 0xcf, 0xc9, 0xe2, 0xe5, 0x72, 0x74, 0x80, 0x44, 0x1f, 0x90, 0xba, 0x25, 0xc4,
     0x88, 0xf4, 0x61, 0xc7, 0x0b, 0x5e, 0xa5, 0xdc, 0xaa, 0xf7, 0xaf, 0x69, 0x27, 0x0a, 0xa5, 0x14
 };
+
+
+/* ---- call log of secp256k1_schnorrsig_challenge ----
+ * Slot selected by the watch g_chal_w (never assigned by code or contracts): the call number
+ * g_chal_w (0-based) records its pointer arguments, the CONTENT of r32 and pubkey32 at call time
+ * and the scalar handed back.  Non-ghost part: frame {*e}, scalar_ok(e). */
+#ifdef C02_CHALLENGE_CONTRACT
+int g_chal_n, g_chal_w, g_chal_hit; const unsigned char *g_chal_r32p, *g_chal_msgp, *g_chal_pkp; size_t g_chal_msglen;
+unsigned char g_chal_r32[32], g_chal_pk[32]; secp256k1_scalar g_chal_e; const secp256k1_hash_ctx *g_chal_hc;
+#define CH_B4(g, a, i) g[i] == a[i] && g[i+1] == a[i+1] && g[i+2] == a[i+2] && g[i+3] == a[i+3]
+#define CH_K4(g, i) g[i] == __CPROVER_old(g[i]) && g[i+1] == __CPROVER_old(g[i+1]) && g[i+2] == __CPROVER_old(g[i+2]) && g[i+3] == __CPROVER_old(g[i+3])
+#define CH_B32(g, a) (CH_B4(g, a, 0) && CH_B4(g, a, 4) && CH_B4(g, a, 8) && CH_B4(g, a, 12) && CH_B4(g, a, 16) && CH_B4(g, a, 20) && CH_B4(g, a, 24) && CH_B4(g, a, 28))
+#define CH_K32(g) (CH_K4(g, 0) && CH_K4(g, 4) && CH_K4(g, 8) && CH_K4(g, 12) && CH_K4(g, 16) && CH_K4(g, 20) && CH_K4(g, 24) && CH_K4(g, 28))
+#define CHALLENGE_RESET(w) do { g_chal_n = 0; g_chal_hit = 0; g_chal_w = (w); } while (0)
+#endif
+static void secp256k1_schnorrsig_challenge(const secp256k1_hash_ctx *hash_ctx, secp256k1_scalar* e, const unsigned char *r32, const unsigned char *msg, size_t msglen, const unsigned char *pubkey32)
+__CPROVER_requires(hash_ctx != NULL && __CPROVER_w_ok(e, sizeof(*e)) && __CPROVER_r_ok(r32, 32) && __CPROVER_r_ok(pubkey32, 32) && (msglen == 0 || __CPROVER_r_ok(msg, msglen)))
+#ifdef C02_CHALLENGE_CONTRACT
+__CPROVER_assigns(*e, g_chal_n, g_chal_hit, g_chal_r32p, g_chal_msgp, g_chal_pkp, g_chal_msglen, g_chal_r32, g_chal_pk, g_chal_e, g_chal_hc)
+__CPROVER_ensures(g_chal_n == __CPROVER_old(g_chal_n) + 1)
+__CPROVER_ensures(__CPROVER_old(g_chal_n) == g_chal_w
+    ? (g_chal_hit == 1 && g_chal_r32p == r32 && g_chal_msgp == msg && g_chal_pkp == pubkey32 && g_chal_msglen == msglen && g_chal_hc == hash_ctx &&
+       CH_B32(g_chal_r32, r32) && CH_B32(g_chal_pk, pubkey32) && SC_EQ(g_chal_e, *e))
+    : (g_chal_hit == __CPROVER_old(g_chal_hit) && g_chal_r32p == __CPROVER_old(g_chal_r32p) && g_chal_msgp == __CPROVER_old(g_chal_msgp) && g_chal_pkp == __CPROVER_old(g_chal_pkp) &&
+       g_chal_msglen == __CPROVER_old(g_chal_msglen) && g_chal_hc == __CPROVER_old(g_chal_hc) && CH_K32(g_chal_r32) && CH_K32(g_chal_pk) && SC_KEEP(g_chal_e)))
+#else
+__CPROVER_assigns(*e)
+#endif
+__CPROVER_ensures(scalar_ok(e))
+;
+
+#ifdef C02_HASHLOG2
+#ifdef VERIF_HASH_LOG_H
+#error "include assumed_C02.h with C02_HASHLOG2 instead of hash_log.h, not in addition"
+#endif
+#define VERIF_HASH_LOG_H
+int g_fin_n;                 /* finalize calls so far */
+int g_h_fresh;               /* 1 until the first write of the current epoch */
+int g_we; uint64_t g_wpos;   /* watch selectors: never assigned by code or contracts */
+int g_w_hit; unsigned char g_w_byte;
+int g_w_started; uint32_t g_w_s0, g_w_s7; uint64_t g_w_b0;
+int g_w_fin; uint64_t g_w_end; unsigned char g_w_dig[32];
+int g_we2; int g_w2_fin; uint64_t g_w2_end; unsigned char g_w2_dig[32];   /* second finalize watch (g_we2 never assigned by code or contracts) */
+
+#define HASHLOG_RESET() do { g_fin_n = 0; g_h_fresh = 1; g_w_hit = 0; g_w_started = 0; g_w_fin = 0; g_w2_fin = 0; } while (0)
+
+static void secp256k1_sha256_write(const secp256k1_hash_ctx *hash_ctx, secp256k1_sha256 *hash, const unsigned char *data, size_t len)
+__CPROVER_requires(__CPROVER_rw_ok(hash, sizeof(*hash)) && (len == 0 || __CPROVER_r_ok(data, len)) && hash_ctx != NULL)
+__CPROVER_requires(hash->bytes + len >= len)
+__CPROVER_assigns(*hash, g_h_fresh, g_w_hit, g_w_byte, g_w_started, g_w_s0, g_w_s7, g_w_b0)
+__CPROVER_ensures(hash->bytes == __CPROVER_old(hash->bytes) + len)
+__CPROVER_ensures(g_h_fresh == 0)
+__CPROVER_ensures((__CPROVER_old(g_h_fresh) && g_fin_n == g_we)
+    ? (g_w_started == 1 && g_w_s0 == __CPROVER_old(hash->s[0]) && g_w_s7 == __CPROVER_old(hash->s[7]) && g_w_b0 == __CPROVER_old(hash->bytes))
+    : (g_w_started == __CPROVER_old(g_w_started) && g_w_s0 == __CPROVER_old(g_w_s0) && g_w_s7 == __CPROVER_old(g_w_s7) && g_w_b0 == __CPROVER_old(g_w_b0)))
+__CPROVER_ensures((g_fin_n == g_we && __CPROVER_old(hash->bytes) <= g_wpos && g_wpos < __CPROVER_old(hash->bytes) + len)
+    ? (g_w_hit == 1 && g_w_byte == data[g_wpos - __CPROVER_old(hash->bytes)])
+    : (g_w_hit == __CPROVER_old(g_w_hit) && g_w_byte == __CPROVER_old(g_w_byte)))
+;
+#define DIG4(i) g_w_dig[i] == out32[i] && g_w_dig[i+1] == out32[i+1] && g_w_dig[i+2] == out32[i+2] && g_w_dig[i+3] == out32[i+3]
+#define DIG2_4(i) g_w2_dig[i] == out32[i] && g_w2_dig[i+1] == out32[i+1] && g_w2_dig[i+2] == out32[i+2] && g_w2_dig[i+3] == out32[i+3]
+#define DIG2K4(i) g_w2_dig[i] == __CPROVER_old(g_w2_dig[i]) && g_w2_dig[i+1] == __CPROVER_old(g_w2_dig[i+1]) && g_w2_dig[i+2] == __CPROVER_old(g_w2_dig[i+2]) && g_w2_dig[i+3] == __CPROVER_old(g_w2_dig[i+3])
+#define DIGK4(i) g_w_dig[i] == __CPROVER_old(g_w_dig[i]) && g_w_dig[i+1] == __CPROVER_old(g_w_dig[i+1]) && g_w_dig[i+2] == __CPROVER_old(g_w_dig[i+2]) && g_w_dig[i+3] == __CPROVER_old(g_w_dig[i+3])
+static void secp256k1_sha256_finalize(const secp256k1_hash_ctx *hash_ctx, secp256k1_sha256 *hash, unsigned char *out32)
+__CPROVER_requires(__CPROVER_rw_ok(hash, sizeof(*hash)) && __CPROVER_w_ok(out32, 32) && hash_ctx != NULL)
+__CPROVER_assigns(*hash, __CPROVER_object_upto(out32, 32), g_fin_n, g_h_fresh, g_w_fin, g_w_end, g_w_dig, g_w2_fin, g_w2_end, g_w2_dig)
+__CPROVER_ensures(g_fin_n == __CPROVER_old(g_fin_n) + 1 && g_h_fresh == 1)
+__CPROVER_ensures(__CPROVER_old(g_fin_n) == g_we
+    ? (g_w_fin == 1 && g_w_end == __CPROVER_old(hash->bytes) && DIG4(0) && DIG4(4) && DIG4(8) && DIG4(12) && DIG4(16) && DIG4(20) && DIG4(24) && DIG4(28))
+    : (g_w_fin == __CPROVER_old(g_w_fin) && g_w_end == __CPROVER_old(g_w_end) && DIGK4(0) && DIGK4(4) && DIGK4(8) && DIGK4(12) && DIGK4(16) && DIGK4(20) && DIGK4(24) && DIGK4(28)))
+__CPROVER_ensures(__CPROVER_old(g_fin_n) == g_we2
+    ? (g_w2_fin == 1 && g_w2_end == __CPROVER_old(hash->bytes) && DIG2_4(0) && DIG2_4(4) && DIG2_4(8) && DIG2_4(12) && DIG2_4(16) && DIG2_4(20) && DIG2_4(24) && DIG2_4(28))
+    : (g_w2_fin == __CPROVER_old(g_w2_fin) && g_w2_end == __CPROVER_old(g_w2_end) && DIG2K4(0) && DIG2K4(4) && DIG2K4(8) && DIG2K4(12) && DIG2K4(16) && DIG2K4(20) && DIG2K4(24) && DIG2K4(28)))
+;
+#endif /* C02_HASHLOG2 */
+
 #endif
